@@ -382,15 +382,15 @@ K("C08/cells/one-rank", ["C08", "C12"], BD + "c08_cells_one_rank_roundtrip", ["b
   bounded="boards with at most one non-empty rank (all 13^8 contents, all 8 ranks); full boards: C08/cells/full-board (thorough)", timeout=2400)
 K("C08/cells/full-board", ["C08"], BD + "c08_cells_full_board_roundtrip", ["board::format_cells", "board::parse_cells"],
   "for all 13^64 boards: format_cells == canonical FEN board field and parse_cells(format_cells(c)) == c", tier="thorough", timeout=7200, mem_gb=24)
-K("C08/record/tail", ["C08", "C12"], BD + "c08_record_tail_roundtrip", ["<RawBoard as Display>::fmt", "<RawBoard as FromStr>::from_str", "board::parse_ep_source", "RawBoard::ep_dest"],
+K("C08/record/tail", ["C08", "C12"], "board::verif_kani_d::c08_record_tail_roundtrip_v2", ["<RawBoard as Display>::fmt", "<RawBoard as FromStr>::from_str", "board::parse_ep_source", "RawBoard::ep_dest"],
   "for both sides, all 16 rights sets, every rank-consistent en-passant mark (and none), all 65536 x 65536 counter values (board field fixed): the record has six space-separated fields in order, the en-passant field names the square behind the marked pawn, and from_str of the text returns the same raw board",
   assumes=["C20/text/castling-display", "C20/text/coord-display"], timeout=2400)
 K("C12/fen/parse-cells", ["C12", "C08"], BD + "c12_parse_cells_total_len32", ["board::parse_cells"],
   "for all UTF-8 strings of <= 32 bytes: parse_cells returns a value or an error, never panics (incl. its three closing assert_eq!); Ok iff the independent reader accepts (FEN board with '.' also denoting an empty square), with the same cells",
   bounded="strings of <= 32 bytes (a full board field has up to 71)", timeout=3000, mem_gb=16)
-K("C12/fen/record-tail", ["C12", "C08"], BD + "c12_raw_from_str_tail_total", ["<RawBoard as FromStr>::from_str", "board::parse_ep_source"],
-  "for a fixed board field followed by ANY <= 20 bytes: from_str returns a value or an error, never panics; an accepted record formats to text that parses back to the same raw board, and its mark is on the rank appropriate to the side to move (parse-format-parse stability of the five trailing fields)",
-  bounded="<= 20 bytes after the board field", timeout=3000, mem_gb=16)
+K("C12/fen/record-tail", ["C12", "C08"], "board::verif_kani_d::c12_raw_from_str_tail_total_v2", ["<RawBoard as FromStr>::from_str", "board::parse_ep_source"],
+  "for a fixed board field followed by ANY <= 12 bytes: from_str returns a value or an error, never panics; an accepted record formats to text that parses back to the same raw board, and its mark is on the rank appropriate to the side to move (parse-format-parse stability of the five trailing fields)",
+  bounded="<= 12 bytes after the board field", assumes=["C12/utf8-predicate"], timeout=3000, mem_gb=24, mem_est=8)
 
 # ---------------------------------------------------------------------------------------------
 # spec-level lemmas (reference semantics only): C18, C02, C07 (d), class partition
